@@ -2,7 +2,7 @@
    Models: Model/DropIn.v (native_X: CPython's _datetimemodule.c on (wall, fold, tzinfo) ; pd_X: /repo's overrides ; dispatch_model over the
    generated Gen/Classes.v), Spec/Zone.v, Spec/Cal.v, Model/TzConvert.v.  Zones are arbitrary tables (well-formed where stated). *)
 From Coq Require Import ZArith List Bool String.
-From PV Require Import Lib.PyBase Spec.Cal Spec.Zone Spec.NativeDT Spec.TdFloat Proofs.ZoneFacts Model.TzConvert Gen.Classes Model.DropIn Proofs.C11Facts Proofs.C11Foreign.
+From PV Require Import Lib.PyBase Spec.Cal Spec.Zone Spec.NativeDT Spec.TdFloat Proofs.ZoneFacts Model.TzConvert Gen.Classes Model.DropIn Proofs.C11Facts Proofs.C11Foreign Model.DropInCfg Proofs.C11Cfg.
 Import ListNotations.
 Open Scope Z_scope.
 
@@ -499,3 +499,55 @@ Theorem model_is_code_dropin_fixed_timezone : forall tz od d,
   glue_FixedTimezone_fromutc tz d = rmap (fun W => mkgdt W 0 (Some tz)) (fixed_fromutc (gz_off tz) (g_wall d)).
 Proof. exact glue_fixed_is_model. Qed.
 Print Assumptions model_is_code_dropin_fixed_timezone.
+
+(* ---- process-wide configuration and the drop-in methods (Model/DropInCfg.v; streams dt-cfg-...) ---- *)
+(* A configuration call that was rejected, anywhere in the history, leaves no trace. *)
+Theorem failed_set_keeps_configuration : forall c h1 h2, run_cfg c (h1 ++ Rejected :: h2) = run_cfg c (h1 ++ h2).
+Proof. exact rejected_anywhere_leaves_no_trace. Qed.
+Print Assumptions failed_set_keeps_configuration.
+
+(* The configured local timezone is the last successfully set value; set_local_timezone() and leaving a test_local_timezone block give the system zone back. *)
+Theorem local_timezone_is_last_set : forall sys c h z,
+  pd_local_timezone sys (run_cfg c (h ++ [SetLocalTz (Some z)])) = z /\
+  pd_local_timezone sys (run_cfg c (h ++ [SetLocalTz None])) = sys /\
+  pd_local_timezone sys (run_cfg c (h ++ [TestEnter z; TestExit])) = sys.
+Proof. exact local_timezone_last_set. Qed.
+Print Assumptions local_timezone_is_last_set.
+
+(* astimezone on a naive DateTime answers the same after every history of set_local_timezone / test_local_timezone / rejected calls. *)
+Theorem naive_astimezone_independent_of_history : forall sys h1 h2 x tz isp,
+  astimezone_after sys h1 x tz isp = astimezone_after sys h2 x tz isp.
+Proof. exact astimezone_naive_independent_of_history. Qed.
+Print Assumptions naive_astimezone_independent_of_history.
+
+(* ... namely what the native naive datetime answers (the value read in the SYSTEM zone), as a DateTime carrying the tz argument (results that are not the second occurrence of a repeated wall time). *)
+Theorem naive_astimezone_is_native : forall sys h x tz isp r,
+  native_astimezone_naive sys x tz = Ok r -> v_fold r = false ->
+  astimezone_after sys h x tz isp = Ok (TyDateTime, r, true).
+Proof. exact astimezone_naive_is_native. Qed.
+Print Assumptions naive_astimezone_is_native.
+
+(* System zone UTC (the staged environment): the result denotes the instant whose UTC wall clock is the naive value. *)
+Theorem naive_astimezone_utc_instant : forall x tz r, wf_zone (tz_zone tz) = true ->
+  native_astimezone_naive (fixed_zone 0) x tz = Ok r -> instant r = v_wall x /\ v_tz r = Some tz.
+Proof. exact astimezone_naive_utc_instant. Qed.
+Print Assumptions naive_astimezone_utc_instant.
+
+(* Reading the configured zone instead (the class of change the dt-cfg streams look for) is NOT the native answer. *)
+Theorem naive_astimezone_configured_zone_refuted :
+  exists x tz z, native_astimezone_naive (pd_local_timezone (fixed_zone 0) (run_cfg cfg0 [SetLocalTz (Some z)])) x tz
+                 <> native_astimezone_naive (fixed_zone 0) x tz.
+Proof. exact configured_zone_reading_refuted. Qed.
+Print Assumptions naive_astimezone_configured_zone_refuted.
+
+(* ---- FormattableMixin.__format__ routing (streams fmt-route, fmt-spec-...) ---- *)
+(* The empty spec is str(self); a spec with a '%' anywhere - plain, flagged (%-d %_d %^b %#Z), with a width (%4Y), %:z, %%, a trailing % - goes to strftime, exactly the native routing. *)
+Theorem format_percent_spec_is_strftime : fmt_route [] = 0 /\ native_fmt_route [] = 0 /\
+  forall spec, In 37 spec -> fmt_route spec = native_fmt_route spec /\ fmt_route spec = 1.
+Proof. exact fmt_route_percent_all. Qed.
+Print Assumptions format_percent_spec_is_strftime.
+
+(* The routing leaves the native one exactly on the non-empty specs without '%': pendulum's token language (documented extension of format()). *)
+Theorem format_route_differs_only_without_percent : forall spec, fmt_route spec <> native_fmt_route spec <-> (spec <> [] /\ ~ In 37 spec).
+Proof. exact fmt_route_differs_iff. Qed.
+Print Assumptions format_route_differs_only_without_percent.
